@@ -1,0 +1,29 @@
+//go:build verif
+
+package mavl
+
+// Verification hooks (add-only) for the pruning check.
+
+// VerifResetPruneGlobals puts the package-level pruning state back to what a
+// freshly started process has: maxBlockHeight and secLvlPruningH are re-read
+// from the database on next use, no pruning run is marked active.
+func VerifResetPruneGlobals() {
+	wg.Wait()
+	heightMtx.Lock()
+	maxBlockHeight = 0
+	heightMtx.Unlock()
+	secLvlPruningH = 0
+	quit = false
+	setPruning(pruningStateEnd)
+}
+
+// VerifWaitPrune waits for a background pruning run started by Tree.Save
+// (without asking it to quit early, unlike ClosePrune).
+func VerifWaitPrune() {
+	wg.Wait()
+}
+
+// VerifPruneConsts returns the level thresholds compiled into the package.
+func VerifPruneConsts() (second, third int64, onceScan, once int) {
+	return secondLevelPruningHeight, threeLevelPruningHeight, onceScanCount, onceCount
+}
